@@ -33,9 +33,12 @@ for (B, blk) in (("128", 16), ("64", 8)):
     J(s + "set_tk3", ["C01", "C10", "C11"], H, "h_set_tk3", enforce=f + "set_tk3",
       must_have=LC + PC, replay=R + "_keylen")
     TK = [f + "set_tk1", f + "set_tk2", f + "set_tk3"]
-    J(s + "set_key_inner", ["C01", "C10", "C04"], H, "h_set_key_inner", enforce=f + "set_key_inner",
-      replace=TK, must_have=PC, replay=R + "_keylen",
-      note="round count, which bytes go to TK1/TK2/TK3, each tweakey function called exactly once")
+    for (tw, lo, hi) in ((0, blk, 3 * blk), (1, blk, 2 * blk)):
+        for n in range(lo, hi + 1):
+            J(s + "set_key_inner.%s%d" % ("t" if tw else "k", n), ["C01", "C10", "C04"] if (n % blk == 0) else ["C10", "C04"], H, "h_set_key_inner",
+              enforce=f + "set_key_inner", defs=["VERIF_CASE_LEN=%d" % n, "VERIF_CASE_TWEAK=%d" % tw],
+              replace=TK, must_have=PC, replay=R + "_keylen",
+              note="key length %d, %s (case split R8): round count, which bytes go to TK1/TK2/TK3, each tweakey function called exactly once" % (n, "tweakable" if tw else "no tweak"))
     J(s + "set_key", ["C01", "C10", "C14", "C11"], H, "h_set_key", enforce=f + "set_key",
       replace=[f + "set_key_inner"], must_have=PC, replay=R + "_keylen,reject",
       note="return value over the full unsigned range of lengths; empty frame on rejection")
@@ -51,25 +54,46 @@ for (B, blk) in (("128", 16), ("64", 8)):
       defs=["VERIF_CASE_INVALID=1", "VERIF_ALIAS_KEY=1"], replace=[f + "xor_tk1"], must_have=PC, replay=R + "_tweak",
       note="tweak length 0 or > block (symbolic): returns 0, empty frame")
 
-# ------------------------------------------------------------------ generic CTR back ends: life cycle, setters
-HC128 = "h_skinny128_ctr.c"
+# ------------------------------------------------------------------ generic CTR back ends (3 ciphers)
 MF = ["--malloc-may-fail", "--malloc-fail-null"]
-J("c128.def_init", ["C15", "C16", "C11"], HC128, "h_def_init", enforce="skinny128_ctr_def_init", cbmc=MF,
-  must_have=PC, replay="ctr128_life", note="calloc may fail: 0 and nothing allocated; else fresh zeroed context, offset = block")
-J("c128.def_cleanup", ["C15", "C17"], HC128, "h_def_cleanup", enforce="skinny128_ctr_def_cleanup",
-  replace=["skinny_cleanse"], must_have=PC + ["C17 erasure"], replay="ctr128_life",
-  note="free() redirected to a checker asserting the whole context is zero at the moment of release; freed exactly once; NULL ctx: empty frame")
-J("c128.def_set_key", ["C10", "C14", "C05"], HC128, "h_def_set_key", enforce="skinny128_ctr_def_set_key",
-  replace=["skinny128_set_key"], must_have=PC, replay="ctr128_life")
-J("c128.def_set_tweaked_key", ["C10", "C14", "C04"], HC128, "h_def_set_tweaked_key", enforce="skinny128_ctr_def_set_tweaked_key",
-  replace=["skinny128_set_tweaked_key"], must_have=PC, replay="ctr128_life")
-J("c128.def_set_tweak", ["C14", "C04"], HC128, "h_def_set_tweak", enforce="skinny128_ctr_def_set_tweak",
-  replace=["skinny128_set_tweak"], must_have=PC, replay="ctr128_life")
-for n in range(0, 17):
-    J("c128.def_set_counter.len%d" % n, ["C05", "C14"], HC128, "h_def_set_counter", enforce="skinny128_ctr_def_set_counter",
-      defs=["VERIF_CASE_LEN=%d" % n], must_have=PC, replay="ctr128", note="counter length %d; NULL or not" % n)
-J("c128.def_set_counter.invalid", ["C05", "C14"], HC128, "h_def_set_counter", enforce="skinny128_ctr_def_set_counter",
-  defs=["VERIF_CASE_INVALID=1"], must_have=PC, replay="ctr128")
+for (fam, B) in (("skinny128", 16), ("skinny64", 8), ("mantis", 8)):
+    HC = "h_%s_ctr.c" % fam
+    c = {"skinny128": "c128.", "skinny64": "c64.", "mantis": "cm."}[fam]
+    P = fam + "_ctr_def"
+    R = {"skinny128": "ctr128", "skinny64": "ctr64", "mantis": "ctrm"}[fam]
+    J(c + "def_init", ["C15", "C16", "C11"], HC, "h_def_init", enforce=P + "_init", cbmc=MF,
+      must_have=PC, replay=R + "_life", note="calloc may fail: 0 and nothing allocated; else fresh zeroed context, offset = block")
+    J(c + "def_cleanup", ["C15", "C17"], HC, "h_def_cleanup", enforce=P + "_cleanup",
+      replace=["skinny_cleanse"], must_have=PC + ["C17 erasure"], replay=R + "_life",
+      note="free() redirected to a checker asserting the whole context is zero at the moment of release; freed exactly once; NULL ctx: empty frame")
+    if fam != "mantis":
+        J(c + "def_set_key", ["C10", "C14", "C05"], HC, "h_def_set_key", enforce=P + "_set_key",
+          replace=[fam + "_set_key"], must_have=PC, replay=R + "_life")
+        J(c + "def_set_tweaked_key", ["C10", "C14", "C04"], HC, "h_def_set_tweaked_key", enforce=P + "_set_tweaked_key",
+          replace=[fam + "_set_tweaked_key"], must_have=PC, replay=R + "_life")
+        J(c + "def_set_tweak", ["C14", "C04"], HC, "h_def_set_tweak", enforce=P + "_set_tweak",
+          replace=[fam + "_set_tweak"], must_have=PC, replay=R + "_life")
+        E = fam + "_ecb_encrypt"
+        INC = fam + "_inc_counter"
+        XB = fam + "_xor"
+    else:
+        J(c + "def_set_key", ["C10", "C14", "C05", "C02"], HC, "h_def_set_key", enforce=P + "_set_key",
+          replace=["mantis_set_key"], must_have=PC, replay=R + "_life")
+        J(c + "def_set_tweak", ["C14", "C02"], HC, "h_def_set_tweak", enforce=P + "_set_tweak",
+          replace=["mantis_set_tweak"], must_have=PC, replay=R + "_life")
+        E = "mantis_ecb_crypt"
+        INC = "skinny64_inc_counter"
+        XB = "skinny64_xor"
+    for n in range(0, B + 1):
+        J(c + "def_set_counter.len%d" % n, ["C05", "C14"], HC, "h_def_set_counter", enforce=P + "_set_counter",
+          defs=["VERIF_CASE_LEN=%d" % n], must_have=PC, replay=R, note="counter length %d; NULL or not" % n)
+    J(c + "def_set_counter.invalid", ["C05", "C14"], HC, "h_def_set_counter", enforce=P + "_set_counter",
+      defs=["VERIF_CASE_INVALID=1"], must_have=PC, replay=R)
+    J(c + "def_encrypt", ["C05", "C09", "C14"], HC, "h_def_encrypt", enforce=P + "_encrypt",
+      defs=["VERIF_ROLE_CTR=1"], replace=[E, INC, XB, "skinny_xor"],
+      must_have=LC + PC + ["ptr-norm"], replay=R, timeout=1800,
+      note="coverage layer: every data byte is combined exactly once with the keystream byte at the matching absolute "
+           "position; size <= 2^40 symbolic; in-place or disjoint; NULL arguments -> 0 with empty frame")
 
 # ------------------------------------------------------------------ MANTIS single block
 HM = "h_mantis_cipher.c"
@@ -85,11 +109,71 @@ J("m.set_key", ["C02", "C10", "C14", "C11"], HM, "h_set_key", enforce="mantis_se
 J("m.set_tweak", ["C02", "C14", "C11"], HM, "h_set_tweak", enforce="mantis_set_tweak", must_have=PC, replay="mantis,reject")
 J("m.swap_modes", ["C03", "C11"], HM, "h_swap_modes", enforce="mantis_swap_modes", must_have=PC, replay="mantis")
 
-J("c128.def_encrypt", ["C05", "C09", "C14"], HC128, "h_def_encrypt", enforce="skinny128_ctr_def_encrypt",
-  defs=["VERIF_ROLE_CTR=1"], replace=["skinny128_ecb_encrypt", "skinny128_inc_counter", "skinny128_xor", "skinny_xor"],
-  must_have=LC + PC + ["ptr-norm"], replay="ctr128", timeout=1800,
-  note="coverage layer: every data byte is combined exactly once with the keystream byte at the matching absolute "
-       "position; size <= 2^40 symbolic; in-place or disjoint; NULL arguments -> 0 with empty frame")
+
+# ------------------------------------------------------------------ helpers of skinny-internal.h (layer A)
+HI = "h_internal.c"
+J("i.cleanse", ["C17"], HI, "h_cleanse", enforce="skinny_cleanse", must_have=LC + PC, replay="ctr128_life",
+  note="volatile walking pointer; symbolic size <= 4096; every byte zero (witness), nothing else written")
+J("i.xor", ["C05", "C09"], HI, "h_xor", enforce="skinny_xor", must_have=LC + PC, replay="ctr128",
+  note="symbolic size <= 128; in-place or disjoint; witness byte")
+J("i.xor128", ["C05", "C09", "C12"], HI, "h_xor128", enforce="skinny128_xor", must_have=PC, replay="ctr128")
+J("i.xor64", ["C05", "C09", "C12"], HI, "h_xor64", enforce="skinny64_xor", must_have=PC, replay="ctr64")
+J("i.inc128", ["C05"], HI, "h_inc128", enforce="skinny128_inc_counter", loops=False, unwind=17, must_have=PC, replay="ctr128",
+  note="16-iteration loop (program-constant bound) unwound with unwinding assertion: complete; big-endian add mod 2^128")
+J("i.inc64", ["C05"], HI, "h_inc64", enforce="skinny64_inc_counter", loops=False, unwind=9, must_have=PC, replay="ctr64",
+  note="8-iteration loop unwound with unwinding assertion: complete; big-endian add mod 2^64")
+
+# ------------------------------------------------------------------ parallel ECB front ends (3 ciphers)
+for (fam, B) in (("skinny128", 16), ("skinny64", 8), ("mantis", 8)):
+    HP = "h_%s_parallel.c" % fam
+    c = {"skinny128": "p128.", "skinny64": "p64.", "mantis": "pm."}[fam]
+    P = fam + "_parallel_ecb"
+    R = {"skinny128": "par128", "skinny64": "par64", "mantis": "parm"}[fam]
+    HAS = ["_skinny_has_vec128", "_skinny_has_vec256"] if fam == "skinny128" else ["_skinny_has_vec128"]
+    J(c + "init", ["C07", "C13", "C14", "C15", "C16", "C11"], HP, "h_init", enforce=P + "_init", cbmc=MF, replace=HAS,
+      must_have=PC, replay=R + "_life",
+      note="NULL -> 0; calloc failure -> 0 with inert object; success: zeroed schedule, back end = widest offered by the CPU model, parallel_size matches")
+    J(c + "cleanup", ["C15", "C17"], HP, "h_cleanup", enforce=P + "_cleanup", replace=["skinny_cleanse"],
+      must_have=PC + ["C17 erasure"], replay=R + "_life")
+    J(c + "set_key", ["C10", "C14"], HP, "h_set_key", enforce=P + "_set_key",
+      replace=[fam + "_set_key"], must_have=PC, replay=R + "_life")
+    if fam == "mantis":
+        J(c + "swap_modes", ["C03", "C14"], HP, "h_swap_modes", enforce=P + "_swap_modes", replace=["mantis_swap_modes"],
+          must_have=PC, replay=R + "_life")
+        J(c + "crypt", ["C07", "C09", "C14", "C03"], HP, "h_crypt", enforce=P + "_crypt",
+          replace=["_mantis_parallel_crypt_vec128", "mantis_ecb_crypt_tweaked"], must_have=LC + PC + ["ptr-norm"], replay=R, timeout=1800,
+          note="coverage layer: block i processed under tweak i, exactly once, inside [0,size); real indirect call through the vtable")
+    else:
+        vec = ["_%s_parallel_%%s_vec128" % fam] + (["_%s_parallel_%%s_vec256" % fam] if fam == "skinny128" else [])
+        allv = [v % d for v in vec for d in ("encrypt", "decrypt")] + [fam + "_ecb_encrypt", fam + "_ecb_decrypt"]
+        for d in ("encrypt", "decrypt"):
+            J(c + d, ["C07", "C09", "C14", "C03"], HP, "h_" + d, enforce=P + "_" + d, replace=allv,
+              must_have=LC + PC + ["ptr-norm"], replay=R, timeout=1800,
+              note="coverage layer: every block handed exactly once to a block function of the right direction at the right offset; "
+                   "size <= 2^40 symbolic; non-multiples of the block -> 0 with empty frame; real indirect calls through the vtable")
+
+# ------------------------------------------------------------------ public CTR dispatch wrappers
+for (fam, stubs, slots) in (("skinny128", ["stub128", "stub256"], ["set_key", "set_tweaked_key", "set_tweak", "set_counter", "encrypt"]),
+                            ("skinny64", ["stub128"], ["set_key", "set_tweaked_key", "set_tweak", "set_counter", "encrypt"]),
+                            ("mantis", ["stub128"], ["set_key", "set_tweak", "set_counter", "encrypt"])):
+    HC = "h_%s_ctr.c" % fam
+    c = {"skinny128": "w128.", "skinny64": "w64.", "mantis": "wm."}[fam]
+    R = {"skinny128": "ctr128", "skinny64": "ctr64", "mantis": "ctrm"}[fam]
+    be = [fam + "_ctr_def"] + stubs
+    # function-pointer removal considers every address-taken function with a 4-/3-argument shape a candidate,
+    # so every back-end operation is replaced by its (log) contract in every wrapper job
+    ALLBE = [b + "_" + x for b in be for x in ["init", "cleanup"] + slots]
+    HAS = ["_skinny_has_vec128", "_skinny_has_vec256"] if fam == "skinny128" else ["_skinny_has_vec128"]
+    J(c + "init", ["C13", "C14", "C15", "C16", "C06"], HC, "h_pub_init", enforce=fam + "_ctr_init", defs=["VERIF_ROLE_WRAP=1"],
+      replace=ALLBE + HAS, must_have=PC, replay=R + "_life",
+      note="NULL -> 0; widest back end offered by the CPU model, its init called once; failure of the back end's allocation leaves the handle inert (ctx == NULL)")
+    J(c + "cleanup", ["C14", "C15", "C06"], HC, "h_pub_cleanup", enforce=fam + "_ctr_cleanup", defs=["VERIF_ROLE_WRAP=1"],
+      replace=ALLBE, must_have=PC, replay=R + "_life",
+      note="NULL / zeroed / cleaned-up object: nothing happens; else the object's own back end cleans up once and the vtable is reset")
+    for sl in slots:
+        J(c + sl, ["C14", "C15", "C06"], HC, "h_pub_" + sl, enforce=fam + "_ctr_" + sl, defs=["VERIF_ROLE_WRAP=1"],
+          replace=ALLBE, must_have=PC, replay=R + "_life",
+          note="NULL / zeroed / cleaned-up object -> 0 and nothing called; else exactly one call of the same operation of the object's own back end with the same arguments, result passed through")
 
 
 def by_id(i):
